@@ -250,6 +250,39 @@ func enumFields() []enumField {
 type choice struct {
 	F int `json:"f"` // index into enumFields()
 	A int `json:"a"` // index into its alternatives
+	// Len, when set, replaces alternative A by values built from their lengths only (size pass): each pair is
+	// {count, length}: count values of that many 'x'.
+	Len [][2]int `json:"len,omitempty"`
+}
+
+// lenVals expands the {count, length} pairs of a size-pass choice.
+func lenVals(l [][2]int) []string {
+	var out []string
+	for _, p := range l {
+		for i := 0; i < p[0]; i++ {
+			out = append(out, strings.Repeat("x", p[1]))
+		}
+	}
+	return out
+}
+
+// contentLengths collects the content length of every TLV of der down to the attribute values (4 levels:
+// RDNSequence, RDN, AttributeTypeAndValue, type/value), keyed by level.
+func contentLengths(der []byte, level int, into map[int]map[int]bool) {
+	for len(der) > 0 {
+		tag, content, rest, err := readTLV(der)
+		if err != nil {
+			return
+		}
+		if into[level] == nil {
+			into[level] = map[int]bool{}
+		}
+		into[level][len(content)] = true
+		if tag&0x20 != 0 && level < 3 {
+			contentLengths(content, level+1, into)
+		}
+		der = rest
+	}
 }
 
 // ------------------------------------------------------------------ helpers
@@ -1020,6 +1053,9 @@ func (d *d1) build(ch []choice) (n zpkix.Name, own, ext map[string][]string, ext
 	for _, c := range ch {
 		e := d.ef[c.F]
 		a := e.alts[c.A]
+		if c.Len != nil {
+			a = alt{Vals: lenVals(c.Len)}
+		}
 		bad = bad || a.Bad
 		if e.idx == extraField {
 			var l []string
@@ -1042,6 +1078,9 @@ func (d *d1) build(ch []choice) (n zpkix.Name, own, ext map[string][]string, ext
 		} else {
 			*f.mv(&n) = append([]string(nil), a.Vals...)
 			desc[f.name] = a.Vals
+		}
+		if c.Len != nil {
+			desc[f.name] = fmt.Sprintf("{count, length} of values made of 'x': %v", c.Len)
 		}
 		own[f.oid] = append([]string(nil), a.Vals...)
 	}
@@ -1550,7 +1589,7 @@ func main() {
 			return
 		}
 
-		c.Rule("D1: every pkix.Name with at most d non-default fields among the 15 attribute fields ToRDNSequence emits + ExtraNames (alternatives per field listed in coverage.d1_alternatives: one, two, two equal and three values incl. the prefix-related a/ab/b, empty slice, empty string, 128-byte, 3- and 4-byte UTF-8 values, every PrintableString punctuation character, '*' '&' '@' '_'), plus all 16 fields non-default at once; full round trip through zcrypto's DER codec; fields compared as multisets with the Name and IN ORDER (Names, CommonNames, SerialNumbers, every list; single-valued = last) with a deep copy of the parsed sequence taken before the fill; DER cross-decoded by the standard library; string type of every value = PrintableString iff all octets are in the X.680 PrintableString alphabet else UTF8String; SET OF elements in X.690 order; a value that is not valid UTF-8 must be refused by Marshal or round-trip. D2: every DER name of the listed shapes built by the harness' own DER writer, parsed by asn1.Unmarshal and x509.parseName, each parse compared with the harness' own reading of the DER (BMPString by UTF-16BE, UniversalString by UCS-4BE, T61/GeneralString octets or ISO 8859-1), filled (same in-order comparison) and converted back; a case is non-trivial when at least one attribute is present / a parser accepts it")
+		c.Rule("D1: every pkix.Name with at most d non-default fields among the 15 attribute fields ToRDNSequence emits + ExtraNames (alternatives per field listed in coverage.d1_alternatives: one, two, two equal and three values incl. the prefix-related a/ab/b, empty slice, empty string, 128-byte, 3- and 4-byte UTF-8 values, every PrintableString punctuation character, '*' '&' '@' '_'), plus all 16 fields non-default at once; full round trip through zcrypto's DER codec; fields compared as multisets with the Name and IN ORDER (Names, CommonNames, SerialNumbers, every list; single-valued = last) with a deep copy of the parsed sequence taken before the fill; DER cross-decoded by the standard library; string type of every value = PrintableString iff all octets are in the X.680 PrintableString alphabet else UTF8String; SET OF elements in X.690 order; a value that is not valid UTF-8 must be refused by Marshal or round-trip. D1 size pass (same oracle): names chosen by the SIZE of their encoding -- every change of shape of the DER length encoding (content length 127|128, 255|256, 65535|65536; thorough also 16777215|16777216) crossed at each of the four nesting levels (value, AttributeTypeAndValue, RDN, RDNSequence) by one value of k characters for every k in [L-27, L+1] in CommonName and in OrganizationalUnit, and 65535|65536 also reached by many ordinary values (a 327-valued RDN and a 328-attribute name swept one byte at a time); coverage.d1_size_pass lists the boundary lengths actually reached per level, a boundary not reached makes the run incomplete. D2: every DER name of the listed shapes built by the harness' own DER writer, parsed by asn1.Unmarshal and x509.parseName, each parse compared with the harness' own reading of the DER (BMPString by UTF-16BE, UniversalString by UCS-4BE, T61/GeneralString octets or ISO 8859-1), filled (same in-order comparison) and converted back; a case is non-trivial when at least one attribute is present / a parser accepts it")
 		c.Assume("attribute OIDs are the ones typed into this check from X.520, RFC 4519, PKCS#9, the EV guidelines and ETSI EN 319 412-1",
 			"Go's standard encoding/asn1 and crypto/x509/pkix decode PrintableString/UTF8String/INTEGER/OCTET STRING attribute values correctly",
 			"ExtraNames whose OID duplicates a set field: appended values and overriding values are both accepted (statement silent)",
@@ -1738,7 +1777,7 @@ func main() {
 					return true
 				}
 				for _, a := range idx[k] {
-					ch[k] = choice{it.fs[k], a}
+					ch[k] = choice{F: it.fs[k], A: a}
 					if !rec(k + 1) {
 						return false
 					}
@@ -1753,6 +1792,84 @@ func main() {
 		if !done {
 			c.Incomplete("D1: budget hit before all field combinations were enumerated")
 		}
+		// ---------------- direction 1, size pass: the names are chosen by the SIZE of their encoding, not by content.
+		// Every place where the DER length encoding changes shape (content length 127|128, 255|256, 65535|65536;
+		// thorough: 16777215|16777216) is crossed at every nesting level of a name: (a) one value of k characters in
+		// CommonName resp. OrganizationalUnit for every k in [L-27, L+1] (value, AttributeTypeAndValue, RDN and
+		// RDNSequence bodies are k, k+c1, k+c2, k+c3 with small constants, so each body takes both L-1 and L);
+		// (b) the same sizes reached by MANY ordinary values (<= 190 bytes each): a multi-valued RDN whose body,
+		// and a name whose body, sweeps across 65535|65536 one byte at a time.
+		fidx := map[string]int{}
+		for i, e := range d.ef {
+			if e.idx != extraField {
+				fidx[fields[e.idx].name] = i
+			}
+		}
+		var sizeJobs [][]choice
+		bounds := []int{128, 256, 65536}
+		if !c.Quick() {
+			bounds = append(bounds, 16777216)
+		}
+		for _, L := range bounds {
+			for k := L - 27; k <= L+1; k++ {
+				sizeJobs = append(sizeJobs, []choice{{F: fidx["CommonName"], Len: [][2]int{{1, k}}}})
+				sizeJobs = append(sizeJobs, []choice{{F: fidx["OrganizationalUnit"], Len: [][2]int{{1, k}}}})
+			}
+		}
+		for m := 1; m <= 118; m++ {
+			// one RDN of 325 values of 190 bytes, one of 150 and one of m: the SET body sweeps 65495+m .. (crosses 65535|65536)
+			sizeJobs = append(sizeJobs, []choice{{F: fidx["OrganizationalUnit"], Len: [][2]int{{325, 190}, {1, 150}, {1, m}}}})
+			// 325 values of 190 bytes, plus Province of 100 and Locality of m bytes: the RDNSequence body sweeps across 65535|65536
+			sizeJobs = append(sizeJobs, []choice{{F: fidx["OrganizationalUnit"], Len: [][2]int{{325, 190}}},
+				{F: fidx["Province"], Len: [][2]int{{1, 100}}}, {F: fidx["Locality"], Len: [][2]int{{1, m}}}})
+		}
+		var smu sync.Mutex
+		seenLen := map[int]map[int]bool{}
+		done = c.Parallel(len(sizeJobs), func(wk, i int) {
+			if c.TimeUp() {
+				c.Incomplete("D1 size pass: budget hit")
+				return
+			}
+			h := ev.Hist{}
+			d.run(sizeJobs[i], h, c, rep)
+			h["D1 size pass: names evaluated"]++
+			c.Merge(h)
+			n, _, _, _, _, _, _ := d.build(sizeJobs[i])
+			if der, err := zasn1.Marshal(n.ToRDNSequence()); err == nil {
+				mine := map[int]map[int]bool{}
+				contentLengths(der, 0, mine)
+				smu.Lock()
+				for lv, m := range mine {
+					if seenLen[lv] == nil {
+						seenLen[lv] = map[int]bool{}
+					}
+					for l := range m {
+						for _, L := range bounds {
+							if l == L-1 || l == L {
+								seenLen[lv][l] = true
+							}
+						}
+					}
+				}
+				smu.Unlock()
+			}
+		})
+		if !done {
+			c.Incomplete("D1 size pass: budget hit before all names were evaluated")
+		}
+		hit := map[string][]int{}
+		for lv, name := range []string{"RDNSequence body", "RDN (SET) body", "AttributeTypeAndValue body", "value"} {
+			for _, L := range bounds {
+				for _, l := range []int{L - 1, L} {
+					if seenLen[lv][l] {
+						hit[name] = append(hit[name], l)
+					} else if done {
+						c.Incomplete(fmt.Sprintf("D1 size pass: no name whose %s is %d bytes long", name, l))
+					}
+				}
+			}
+		}
+		c.Set("d1_size_pass", map[string]any{"names": len(sizeJobs), "length_boundaries": bounds, "content_lengths_reached_per_level": hit})
 		d.flush(c)
 		reentrantPhase(c)
 
